@@ -14,6 +14,9 @@ class VfsLookup:
 
 def handle_vfs_lookup(parser, events):
     node = parser.parse_vnode(events)
+    if not node.ktraces:
+        # A lone continuation record of a multi-record lookup, the whole lookup is reported when its last record arrives.
+        return None
     return VfsLookup(events, node.path, node.vnode_id)
 
 
